@@ -6,6 +6,8 @@ import (
 	"go/ast"
 	"go/token"
 	"go/types"
+	"os"
+	"regexp"
 	"sort"
 	"strings"
 	"sync"
@@ -653,6 +655,60 @@ func (g *FuncGen) exprText(e ast.Expr) string {
 }
 
 // vcText renders the SMT query of an obligation.
+// frameTrace: for a frame obligation ("field F is unchanged on objects that existed at entry") only the history of F's
+// heap array, the allocation chain and the path conditions matter. Dropping the other hypotheses is sound and turns a
+// query of thousands of assertions into one of a few dozen. Kept: every declaration, every assertion that mentions a
+// version of F's array or an alloc array, and the definitions of the path conditions.
+var symTokRe = regexp.MustCompile(`[A-Za-z_$][A-Za-z0-9_.$]*`)
+
+func frameTrace(trace []string, goal string) []string {
+	fam := map[string]bool{}
+	base := func(sym string) string {
+		// H_x_0, hv_H_x_12, mh_H_x_7 -> H_x
+		t := strings.TrimPrefix(strings.TrimPrefix(sym, "hv_"), "mh_")
+		if !strings.HasPrefix(t, "H_") {
+			return ""
+		}
+		if i := strings.LastIndex(t, "_"); i > 0 {
+			return t[:i]
+		}
+		return t
+	}
+	for _, t := range symTokRe.FindAllString(goal, -1) {
+		if b := base(t); b != "" {
+			fam[b] = true
+		}
+	}
+	if len(fam) == 0 {
+		return trace
+	}
+	fam["H_Galloc"] = true // merged allocation arrays
+	var out []string
+	for _, l := range trace {
+		if !strings.HasPrefix(l, "(assert") {
+			out = append(out, l)
+			continue
+		}
+		keep := false
+		for _, t := range symTokRe.FindAllString(l, -1) {
+			if b := base(t); (b != "" && fam[b]) || strings.HasPrefix(t, "alloc_") {
+				keep = true
+				break
+			}
+		}
+		if !keep {
+			// allocation chain and path-condition definitions
+			if strings.HasPrefix(l, "(assert (forall ((r Int)) (! (=> (select alloc_") || strings.HasPrefix(l, "(assert (= pc_") || strings.HasPrefix(l, "(assert (not (select alloc_") {
+				keep = true
+			}
+		}
+		if keep {
+			out = append(out, l)
+		}
+	}
+	return out
+}
+
 func (g *FuncGen) vcText(o *Obligation, prelude string) string {
 	var sb strings.Builder
 	if strings.Contains(prelude, axiomMarker) {
@@ -672,7 +728,11 @@ func (g *FuncGen) vcText(o *Obligation, prelude string) string {
 	}
 	// heap arrays declared late must be visible: the trace contains their declarations in order,
 	// but a declaration may come after traceLen if first used later; those are not needed then.
-	for _, l := range g.trace[:o.traceLen] {
+	tr := g.trace[:o.traceLen]
+	if strings.HasPrefix(o.Kind, "frame") && os.Getenv("VF_NOFRAMESLICE") == "" {
+		tr = frameTrace(tr, o.goal)
+	}
+	for _, l := range tr {
 		sb.WriteString(l)
 		sb.WriteString("\n")
 	}
